@@ -103,7 +103,7 @@ def timing_bounds(L, rep, tier, seed):
     f_pt = c07.find_impl_fn(L.prog, 'MessagesQueue', 'pop_timeout')
     models = dict(MODELS)
     models.update(TRACE)
-    maxw = 3 if tier == 'quick' else 5
+    maxw = 3 if tier == 'quick' else 4
     MS = 1000000
 
     def h(ctx):
